@@ -1,5 +1,6 @@
 import Driver.Util
 import Model.Strings
+import Model.StringsTok
 /-! driver ops for the equation string printer / parser (C16)
 
 Text escaping: every piece of free text (equation strings, tokens, printed equations, error messages,
@@ -15,6 +16,7 @@ constant literals returned by the parser) travels as `x` followed by the lowerca
 * `parse ; x<hex text>`      → `ok <stack> ; x<const> …` | `err …` (`eq_string_to_command_array_and_constants`)
 * `pyfloat ; x<hex text>`    → `ok 1|0`   (does `float(text)` succeed)
 * `resub ; neg|op ; x<hex text>` → `ok x<hex>`  (the two `re.sub` scanners)
+* `consttok ; x<hex text>`  → `ok 1|0`   (`Str.constTokOK`: the hypothesis of the C16 round-trip theorems on constant strings)
 `<Class>` is the Python exception class (`RuntimeError`, `IndexError`, `KeyError`, `ValueError`,
 `OverflowError`) or `ModelDomain` (non-ASCII input, outside the model).
 -/
@@ -86,6 +88,9 @@ def handle : List String → Option String
   | ["pyfloat", t] => do
     let s ← dec t
     some (if Str.pyFloatOk s.toList then "ok 1" else "ok 0")
+  | ["consttok", t] => do
+    let s ← dec t
+    some (if Str.constTokOK s then "ok 1" else "ok 0")
   | ["resub", which, t] => do
     let s ← dec t
     if which == "neg" then some s!"ok {enc (String.ofList (Str.negativeSub s.toList))}"
